@@ -12,7 +12,10 @@ refinement (`inv_b`) checked before every step; where it succeeds (`CHECKED`) th
 `prints_admitted_checked` applies to that very run: its labels are printed by an execution of
 spec/Sax.v.  The check counts these runs, compares their labels with the uninstrumented model run and
 with the real interpreter, and reports every program of the linear fragment on which the invariant
-check fails."""
+check fails.  `c04premises` evaluates the computable premises of the theorem C04_prints_admitted (closed,
+rt_syn_ok, init_linear) on every program text: where they hold the theorem covers every run of the
+program in the two polarized modes (no run-by-run check needed), and the counts say for how many
+programs of the suite that is the case."""
 import collections
 import re
 
@@ -90,6 +93,7 @@ def refinement_runs(b, d, tier):
     seeds = [0, 1] if tier == "quick" else [0, 1, 2, 3]
     cases = [(i, "", t) for i, t in d.programs]
     checked, inv_fail_linear, inv_fail_other, label_mismatch, impl_compared = 0, [], 0, [], 0
+    inv_fail_all = set()
     lin = {i: in_linear_fragment(t) for i, t in d.programs}
     violations = []
     for sd in seeds:
@@ -115,14 +119,42 @@ def refinement_runs(b, d, tier):
                                 violations.append(P.violation(PROP, "result", "printed multiset is not the one the SAX semantics admits for this run: observed %s, SAX-admitted %s" % (r2["prints"], order),
                                                               i, t, cfg, {"prints": r2["prints"]}, {"prints": order, "must_precede": []}))
             elif tag == "INV-FAIL":
+                inv_fail_all.add(i)
                 if lin[i]:
                     inv_fail_linear.append(i)
                 else:
                     inv_fail_other += 1
+    # the premises of C04_prints_admitted (closed, rt_syn_ok, init_linear), evaluated on the text: where they
+    # hold the theorem covers EVERY run of the program in the two polarized modes, and the checked run must succeed
+    prem = S.run_tool(b.model, "c04premises", cases, timeout=1800)
+    prem_ok = {i for i, _ in d.programs if prem.get(i, "").split("\t")[0] == "PREMISES-OK"}
+    prem_ok_not_checked = sorted(i for i in prem_ok if i in inv_fail_all)
+    lin_without_premises = sorted(i for i, _ in d.programs if lin[i] and i not in prem_ok)
+    sync_compared = 0
+    for i, t in d.programs:
+        if i not in prem_ok:
+            continue
+        ref = d.model[i]["async"].get("0")
+        if ref is None:
+            continue
+        for cfg, r in d.impl[i].items():
+            if cfg[0] == "sync" and not r["panic"] and r["verdict"] is not None:
+                sync_compared += 1
+                if collections.Counter(r["prints"]) != collections.Counter(ref["order"]):
+                    r2 = P.confirm(b, t, cfg, lambda res, o=ref["order"]: collections.Counter(res["prints"]) != collections.Counter(o))
+                    if r2 is not None:
+                        violations.append(P.violation(PROP, "result", "synchronous run prints a multiset the SAX semantics does not admit for this program: observed %s, SAX-admitted %s" % (r2["prints"], ref["order"]),
+                                                      i, t, cfg, {"prints": r2["prints"]}, {"prints": ref["order"], "must_precede": []}))
+    if prem_ok_not_checked:
+        violations.append(C.Violation("premises of C04_prints_admitted hold but the checked run failed (contradicts inv_sax_inv: extraction / driver problem)",
+                                      {"property": PROP, "kind": "unproven", "no_longer_checks": [{"what": "c04premises vs saxcheck", "detail": str(prem_ok_not_checked[:5])}]}, found_input=False))
     known = []
     if inv_fail_linear:
         known.append("refinement-invariant check failed on linear-fragment programs (theorem not applicable to them; covered by the correspondence only): %s" % sorted(set(inv_fail_linear))[:10])
     cov = {"schedules": seeds,
+           "programs_satisfying_premises_of_C04_prints_admitted (closed, rt_syn_ok, init_linear: every run covered by the theorem, async and sync)": len(prem_ok),
+           "linear_fragment_programs_not_satisfying_them (covered by the checked runs and the correspondence only)": lin_without_premises[:20],
+           "implementation_sync_runs_compared_with_sax_admitted_multiset": sync_compared,
            "runs_covered_by_prints_admitted_checked": checked,
            "programs_in_linear_fragment": sum(1 for v in lin.values() if v),
            "invariant_check_failed_in_linear_fragment": sorted(set(inv_fail_linear))[:20],
